@@ -174,6 +174,33 @@ example : window 10 3 = [10, 11, 12] := by decide
 theorem resolveShift_default (pf : PF) : resolveShift pf none = pf.defaultShift := rfl
 theorem resolveShift_explicit (pf : PF) (k : Int) : resolveShift pf (some k) = k := rfl
 
+/-- an explicit zero is an explicit shift, not "no second argument": it is never replaced by the default -/
+theorem resolveShift_zero (pf : PF) : resolveShift pf (some 0) = 0 := rfl
+
+theorem eval_shift_zero (data : Data K) (t : Int) (e : Expr) :
+    eval 𝔸 data t (expandPF .shift e (resolveShift .shift (some 0))) = eval 𝔸 data t e := by
+  simp [resolveShift, expandPF, shiftAllNames_zero]
+
+theorem eval_diff_zero (data : Data K) (t : Int) (e : Expr) :
+    eval 𝔸 data t (expandPF .diff e (resolveShift .diff (some 0))) = 0 := by
+  simp [resolveShift, expandPF, shiftAllNames_zero, eval, fieldAlg]
+
+theorem eval_roc_zero (data : Data K) (t : Int) (e : Expr) (h : eval 𝔸 data t e ≠ 0) :
+    eval 𝔸 data t (expandPF .roc e (resolveShift .roc (some 0))) = 1 := by
+  simp only [resolveShift, Option.getD_some, expandPF, shiftAllNames_zero, eval]
+  exact div_self h
+
+/-- `mov_sum(e, 0)` is the empty sum -/
+theorem eval_movSum_zero (data : Data K) (t : Int) (e : Expr) :
+    eval 𝔸 data t (expandPF .movSum e (resolveShift .movSum (some 0))) = ofRat 0 := by
+  simp [resolveShift, expandPF, movTerms, joinOp, eval, fieldAlg]
+
+/-- ... whereas the omitted argument is the default: the two differ already on a single name -/
+theorem explicit_zero_is_not_default (defs : String → Option Expr) :
+    expand defs (.pseudo .shift (.name "x" 0) (some 0)) = some (.name "x" 0)
+    ∧ expand defs (.pseudo .shift (.name "x" 0) none) = some (.name "x" (-1)) := by
+  constructor <;> simp [expand, expandPF, resolveShift, PF.defaultShift, shiftAllNames]
+
 /-- every documented spelling is recognised, the two spellings of a pseudofunction are the same pseudofunction -/
 theorem spellings :
     PF.ofName? "diff_log" = PF.ofName? "difflog" ∧ PF.ofName? "mov_sum" = PF.ofName? "movsum"
